@@ -4,6 +4,7 @@ import Mastverif.Model.Store
 import Mastverif.Model.Canon
 import Mastverif.Model.Diff
 import Mastverif.Model.Cursor
+import Mastverif.Model.Loads
 import Std.Data.HashMap
 /-!
 # Line-protocol driver for the executable models (compiled as `mastmodel`)
@@ -133,7 +134,8 @@ partial def step (s : St) (line : String) : St × String :=
       | none => (s, "bad-slot")
   | ["clone", src, dst] =>
       match nat src >>= (s.trees[·]?), nat dst with
-      | some m, some j => ({ s with trees := s.trees.insert j m }, "ok")
+      -- `Clone` loads the top node and keeps the pointer (pub.go:684-698)
+      | some m, some j => ({ s with trees := s.trees.insert j { m with rootP := false } }, "ok")
       | _, _ => (s, "bad-slot")
   | [cmd@"root", slot, rslot] | [cmd@"roots", slot, rslot] =>
       match nat slot, nat rslot with
@@ -238,6 +240,32 @@ partial def step (s : St) (line : String) : St × String :=
               else if cmd == "difflinks" then (s, " ".intercalate links)
               else if cmd == "diffloads" then (s, s!"{distinct.length} " ++ " ".intercalate distinct)
               else (s, " ".intercalate (evs.map showEv))
+  | [cmd@"getl", slot, k] | [cmd@"insl", slot, k, _] | [cmd@"dell", slot, k, _] =>
+      match nat slot >>= (s.trees[·]?), nat k with
+      | some m, some k =>
+          let v := match toks with | [_, _, _, v] => (nat v).getD 0 | _ => 0
+          let loads : List T :=
+            if cmd == "getl" then Tree.lookupLoads s.layer m k
+            else if cmd == "insl" then Tree.insertLoads s.layer m k
+            else if Tree.lookup s.layer m k == some v then Tree.deleteLoads s.layer m k
+            else Tree.lookupLoads s.layer m k
+          let names := (loads.map fun t => bstr (nodeName s.enc t)).toArray.qsort (· < ·) |>.toList
+          let base := if cmd == "getl" then s!"get {slot} {k}" else if cmd == "insl" then s!"ins {slot} {k} {v}" else s!"del {slot} {k} {v}"
+          let (s', r) := step s base
+          (s', r ++ " ;" ++ " ".intercalate names)
+      | _, _ => (s, "bad-slot")
+  | ["loadl", rslot, slot] =>
+      let (s', r) := step s s!"load {rslot} {slot}"
+      let nm := match nat rslot >>= (s.roots[·]?) with
+        | some rr => (match rr.link with | some l => bstr l | none => "")
+        | none => ""
+      (s', r ++ " ;" ++ nm)
+  | ["clonel", src, dst] =>
+      let (s', r) := step s s!"clone {src} {dst}"
+      let nm := match nat src >>= (s.trees[·]?) with
+        | some m => if m.rootP then bstr (nodeName s.enc m.root) else ""
+        | none => ""
+      (s', r ++ " ;" ++ nm)
   | ["cur", slot, c] =>
       match nat slot >>= (s.trees[·]?), nat c with
       | some m, some c => ({ s with cursors := s.cursors.insert c [(m.root, 0)] }, "ok")
